@@ -59,10 +59,41 @@ class Ctx(object):
     def out_of_time(self):
         return self.budget is not None and time.time() - self.t0 > self.budget
 
-    def ensure(self, module, name, cond, label=None):
+    def ensure(self, module, name, cond, label=None, pure=True):
+        """post-condition on module.name; with pure=True the array/list arguments are
+        snapshotted before the call and must be unchanged after it (a caller's B, U or
+        cell must keep satisfying the property after being passed on)"""
+        label = label or "%s.%s" % (module.__name__.split(".")[-1], name)
+        if pure:
+            mon = self.mon
+            stack = []
+
+            def before(args, kwargs):
+                stack.append([(i, a, _snap(a)) for i, a in list(enumerate(args)) + list(kwargs.items())
+                              if isinstance(a, (np.ndarray, list))])
+
+            def after(args, kwargs, result, exc):
+                for i, a, s in stack.pop():
+                    same = _same(a, s)
+                    mon.check("pure:%s" % label, same, observed=None if same else a, expected=None if same else s,
+                              detail=None if same else "argument %r was modified in place by the call" % (i,))
+            contracts.spy(module, name, before, after)
         c = contracts.ensure(module, name, cond)
-        self.counters[label or "%s.%s" % (module.__name__.split(".")[-1], name)] = c
+        self.counters[label] = c
         return c
+
+
+def _snap(a):
+    return a.copy() if isinstance(a, np.ndarray) else jsonable(a)
+
+
+def _same(a, s):
+    try:
+        if isinstance(a, np.ndarray):
+            return a.shape == s.shape and bool(np.array_equal(a, s, equal_nan=True))
+        return jsonable(a) == s
+    except Exception:
+        return True
 
 
 def load_prop(prop):
